@@ -57,7 +57,7 @@ def _count_exprs(tree, consts):
             and not any(n in ast.walk(g) for g in ast.walk(fn) if isinstance(g, ast.FunctionDef) and g is not fn)]
     if len(rets) != 1 or not (isinstance(rets[0].value, ast.Tuple) and len(rets[0].value.elts) == 2):
         raise Untranslatable("region_depth_count does not end in `return count, row`")
-    row = expand(rets[0].value.elts[1], fn, keep=("depth", "bases", "count"))
+    row = rets[0].value.elts[1]
     if isinstance(row, ast.Name):
         binds = [n.value for n in ast.walk(fn) if isinstance(n, ast.Assign) and len(n.targets) == 1
                  and isinstance(n.targets[0], ast.Name) and n.targets[0].id == row.id]
@@ -69,6 +69,20 @@ def _count_exprs(tree, consts):
     log2_e, depth_e = row.elts[4], row.elts[5]
     dname = depth_e.id if isinstance(depth_e, ast.Name) else None
     depth_x = expand(depth_e, fn, keep=("bases",))
+    # the accumulator of aligned bases is the one free variable that is not a parameter of the function: whatever
+    # it is called in the source, it is `bases` here
+    fparams = {a.arg for a in fn.args.args}
+    free = []
+    for n in ast.walk(depth_x):
+        if isinstance(n, ast.Name) and n.id not in fparams and n.id not in free:
+            free.append(n.id)
+    if len(free) == 1 and free[0] != "bases":
+        acc = free[0]
+
+        class A(ast.NodeTransformer):
+            def visit_Name(self, node):
+                return ast.copy_location(ast.Name(id="bases", ctx=node.ctx), node) if node.id == acc else node
+        depth_x = A().visit(depth_x)
     log2_x = expand(log2_e, fn, keep=(dname,) if dname else ())
     if dname and dname != "depth":  # a renamed local reads the same
         class R(ast.NodeTransformer):
